@@ -45,6 +45,10 @@ def _famseq(side, what):
 
         def contains(item):
             v = item.fields['int!'] if isinstance(item, VObj) else item
+            if isinstance(v, (tuple, VTuple)):
+                # a literal family (afi, safi): its identity in the abstraction is afi * 256 + safi
+                a, b = (v.items if isinstance(v, VTuple) else v)
+                v = int(a) * 256 + int(b)
             return z3.Function(f'in_{side}_{what}', I, B)(to_z3(v))
 
         return VSeq(n, elem, f'{side}_{what}', isinstance_of=(MultiProtocol if what == 'mp' else NextHop,), contains=contains)
@@ -74,8 +78,17 @@ def _caps(side):
 def _append(kind):
     def h(it, args, kwargs, fr, node):
         item = args[0]
-        v = to_z3(item.fields['int!'])
         ctx = it.ctx
+        if isinstance(item, (tuple, VTuple)):
+            # the family a session WITHOUT the capability carries (RFC 4271): counted apart, and it can only be IPv4 unicast
+            a, b = (item.items if isinstance(item, VTuple) else item)
+            ctx.oblige(f'{kind}:implied-family-is-ipv4-unicast', 'post', z3.BoolVal(int(a) == 1 and int(b) == 1), 'the only family a session carries without Multiprotocol Extensions is IPv4 unicast')
+            f = fr
+            while f is not None and 'nimp' not in f.locs:
+                f = f.parent
+            f.locs['nimp'] = simp(f.locs['nimp'] + 1)
+            return None
+        v = to_z3(item.fields['int!'])
         # soundness of the intersection: what is appended is an element of the received list that the sent list holds
         ctx.oblige(f'{kind}:member-of-sent', 'post', z3.Function(f'in_sent_{kind}', I, B)(v), f'every negotiated {kind} entry was advertised by us')
         idx = fr.lookup('fi' if kind == 'mp' else 'ni')
@@ -104,6 +117,7 @@ SF = {
     'both_mp': VSpecFn(lambda it, k: z3.Function('in_sent_mp', I, B)(z3.Function('recv_mp_at', I, I)(to_z3(k)))),
     'both_nh': VSpecFn(lambda it, k: z3.Function('in_sent_nh', I, B)(z3.Function('recv_nh_at', I, I)(to_z3(k)))),
     'recv_mp_len': VSpecFn(lambda it: z3.Int('recv_mp_len')),
+    'sent_has_ipv4_unicast': VSpecFn(lambda it: z3.Function('in_sent_mp', I, B)(z3.IntVal(257))),
     'recv_nh_len': VSpecFn(lambda it: z3.Int('recv_nh_len')),
 }
 
@@ -133,7 +147,7 @@ contract(
             linklocal_nexthop=const(False),
         )
     },
-    ghost={'nfam': const(0), 'nnh': const(0)},
+    ghost={'nfam': const(0), 'nnh': const(0), 'nimp': const(0)},
     specfns=SF,
     requires=['cnt_mp(0) == 0 and cnt_nh(0) == 0', '0 <= r_asn4_value() and 0 <= s_asn4_value()'],
     callees={
@@ -169,6 +183,9 @@ contract(
         # families / extended next hop: exactly the entries of the received list that we advertised too
         'nfam == (cnt_mp(recv_mp_len()) if s(0x01) and r(0x01) else 0)',
         'nnh == (cnt_nh(recv_nh_len()) if s(0x05) and r(0x05) else 0)',
+        # a peer WITHOUT the Multiprotocol capability is a plain BGP-4 speaker: the session carries IPv4 unicast (RFC 4271;
+        # RFC 4760 section 8 makes the capability the way to agree on anything else) -- iff we speak it ourselves
+        'nimp == (1 if (not r(0x01)) and ((not s(0x01)) or sent_has_ipv4_unicast()) else 0)',
     ],
     notes=['segment contract: up to the ADD-PATH paths-limit and multisession handling, which are not under contract', 'Capabilities objects are abstract: announced(code) is a boolean per (side, code); MultiProtocol / NextHop lists are abstract sequences with a membership predicate'],
     canaries=[
